@@ -32,10 +32,38 @@ def setup(chk, configs=None, docs=None):
     chk.cov['build'] = dict(stage=gb.stage, configs=list(configs))
     if not gb.ok:
         kind = 'corpus' if gb.stage == 'corpus' else 'build'
-        chk.violation('the code pilota-build emits for the corpus cannot be built and run (%s): %s' % (gb.stage, gb.error[:400]),
-                      dict(kind=kind, stage=gb.stage, output=gb.error, repo=core.REPO), no_input=True)
+        doc = _locate_failing_document(gb)
+        if doc is not None:
+            # the emitted code of ONE corpus document does not compile: that document is the failing input
+            chk.violation('the code pilota-build emits for corpus document `%s` does not compile (%s): %s' % (doc['name'], gb.stage, doc['error'][:300]),
+                          dict(kind='document', stage=gb.stage, document=doc['name'], idl=doc['idl'], emitted_at=doc['where'], output=gb.error,
+                               repo=core.REPO))
+        else:
+            chk.violation('the code pilota-build emits for the corpus cannot be built and run (%s): %s' % (gb.stage, gb.error[:400]),
+                          dict(kind=kind, stage=gb.stage, output=gb.error, repo=core.REPO), no_input=True)
     chk.cov['trusted_base'] = (chk.cov.get('trusted_base') or []) + [t for t in TRUSTED if t not in (chk.cov.get('trusted_base') or [])]
     return gb
+
+
+def _locate_failing_document(gb):
+    """maps the first rustc diagnostic that points into the emitted code to the corpus document (top-level module) it lies in"""
+    try:
+        out = os.path.realpath(gb.out_dir or '')
+        for m in re.finditer(r'--> (\S+\.rs):(\d+)', gb.error or ''):
+            path, line = os.path.realpath(m.group(1)), int(m.group(2))
+            if not out or not path.startswith(out) or not os.path.exists(path):
+                continue
+            lines = open(path, encoding='utf-8', errors='replace').read().split('\n')
+            names = {d.name: d for d in (gb.docs or [])}
+            for i in range(min(line, len(lines)) - 1, -1, -1):
+                mm = re.match(r'\s*pub mod (\w+)\s*\{', lines[i])
+                if mm and mm.group(1) in names:
+                    d = names[mm.group(1)]
+                    msg = (gb.error or '')[max(0, m.start() - 300):m.end() + 100].strip()
+                    return dict(name=d.name, idl=gengen.doc_idl(d), where='%s:%d' % (os.path.basename(path), line), error=' '.join(msg.split()))
+        return None
+    except Exception:
+        return None
 
 
 def case_line(op, cfg, tname, proto, mode='sync', data=b''):
